@@ -3,6 +3,10 @@
    by a few numbers in the JSON file named by the environment variable C10_LARGE:
      n keys  id_k = a*k+b  written in rotating lexical forms, n references (in other lexical forms when the type is
      decimal), an order (keys-first | refs-first | mixed) and one mutation at pos/pos2.
+   With shape = "twofield" the instance is instead n elements i under one two-field key (@id, @ref): @id takes only g
+   distinct numbers, @ref is distinct for every element (mutation "dup2": element pos repeats the tuple of pos2, @id in
+   another lexical form), so that hundreds of DIFFERENT tuples agree in their first field and fall into the same buckets
+   of the hash based ValueStore (a tuple comparison that is only wrong for colliding tuples shows up only here).
    TLC expands the description, runs the operational layer step by step (about 4n+2 states), checks that its verdict is
    the declarative layer's, and prints the case with the expected kinds for the harness. *)
 EXTENDS IdentityConstraints, Json, IOUtils
@@ -29,7 +33,15 @@ LTree == [j \in 1..(2 * D.n) |->
 LPath(s, a) == [d |-> FALSE, s |-> s, a |-> a]
 LCons == << [nm |-> "K", kind |-> "key", on |-> "r", sel |-> <<LPath(<<"i">>, "-")>>, flds |-> << <<LPath(<<>>, "id")>> >>, refer |-> "-"],
             [nm |-> "R", kind |-> "keyref", on |-> "r", sel |-> <<LPath(<<"b">>, "-")>>, flds |-> << <<LPath(<<>>, "ref")>> >>, refer |-> "K"] >>
-LCases == {[ty |-> D.ty, cons |-> LCons, tree |-> LTree, fam |-> "large"]}
+TwoNode(k) ==
+    LET src == IF D.mut = "dup2" /\ k = D.pos THEN D.pos2 ELSE k
+        form == IF D.mut = "dup2" /\ k = D.pos THEN KForm(D.pos2 + 1) ELSE KForm(k)
+    IN <<1, "i", <<form, Num(src % D.g)>>, <<"p", Num(src)>>, NoLex>>
+TwoTree == [j \in 1..D.n |-> TwoNode(j)]
+TwoCons == << [nm |-> "K", kind |-> "key", on |-> "r", sel |-> <<LPath(<<"i">>, "-")>>,
+               flds |-> << <<LPath(<<>>, "id")>>, <<LPath(<<>>, "ref")>> >>, refer |-> "-"] >>
+LCases == IF D.shape = "twofield" THEN {[ty |-> D.ty, cons |-> TwoCons, tree |-> TwoTree, fam |-> "large2"]}
+          ELSE {[ty |-> D.ty, cons |-> LCons, tree |-> LTree, fam |-> "large"]}
 EmitLarge == phase = "done" =>
     LET exp == DeclKinds(cs) IN
     PrintT(ToJson([ty |-> cs.ty, cons |-> cs.cons, tree |-> cs.tree, fam |-> cs.fam, exp |-> exp, maybe |-> MaybeGiven(cs, exp)]))
